@@ -2,7 +2,7 @@
 over the symbolic carrier vs the Lean model: values, store order, read sets, chosen width), K4 (real
 element types on exact integer data vs a naive triple loop, all ISAs, immediate / lazy / raw)."""
 import random
-from vlib import core, symrun, flow
+from vlib import core, symrun, flow, shapes
 
 PID = "C01"
 
@@ -68,6 +68,19 @@ def real_groups(tier, seed):
                 shp.add((rng.randint(1, 20), rng.randint(1, 7), rng.randint(1, 36)))
             for n in (15, 16, 17, 31, 33):
                 shp.add((rng.choice([4, 5, 9]), rng.choice([2, 3]), n))
+            # one representative of every (row part, column part) class pair of the base / masked-base kernels
+            # (vlib/shapes.py), and every small-N overload (N <= 5V+1) with two row-remainder classes
+            sz = {"float": 4, "int32_t": 4, "double": 8, "int64_t": 8, "std::complex<float>": 8, "std::complex<double>": 16}[t]
+            if sz <= 8 and not (tier == "quick" and t.startswith("std::complex")):
+                mn = shapes.covering_mn(isa, sz, rng)
+                if tier == "quick" and t not in ("float", "double"):
+                    mn = rng.sample(mn, max(len(mn) // 4, 1))
+                for (m, n) in mn:
+                    shp.add((m, rng.choice([1, 2, 3, 5]), n))
+                W = shapes.lanes(shapes.NATIVE_BITS[isa], sz) if shapes.NATIVE_BITS[isa] else 1
+                for n in range(1, 5 * W + 2):
+                    for m in rng.sample([1, 2, 3, 4, 5, 7, 8, 9, 12, 13, 16, 17], (1 if tier == "quick" else 12)):
+                        shp.add((m, rng.choice([1, 2, 3, 4]), n))
             calls = ["run_real<%s,%d,%d,%d>(%du);" % (t, m, k, n, seed * 131 + i) for i, (m, k, n) in enumerate(sorted(shp))]
             groups.append({"key": "%s/%s" % (isa, t), "header": "matmul_real.h", "isa": isa, "opt": "-O2", "calls": calls,
                            "pre": "static bool g_verbose=false;"})
